@@ -56,30 +56,113 @@ func (s *filterSyms) maskKey(v ssa.Value) (x, e ssa.Value, ok bool) {
 				return pair[0], ia.Index, true
 			}
 		}
+		// `for i, m := range table`: go/ssa indexes a copy of the table loaded before the loop (the table is never written, C11-R1)
+		if ix, isX := pair[1].(*ssa.Index); isX {
+			if ld, isL := ix.X.(*ssa.UnOp); isL && ld.Op == token.MUL && ld.X == ssa.Value(s.masks) {
+				return pair[0], ix.Index, true
+			}
+		}
 	}
 	return nil, nil, false
 }
 
-// listElem: if v is a load of f.ipList[i][k] return path of i and k.
+// isListBase: v addresses the list array itself or a slice of it.
+func (s *filterSyms) isListBase(v ssa.Value) bool {
+	switch x := v.(type) {
+	case *ssa.FieldAddr:
+		return sx.FieldOf(x) == s.ipList
+	case *ssa.Slice:
+		return s.isListBase(x.X)
+	}
+	return false
+}
+
+// slotOfAddr: a is the address of list slot i — directly, or of a local
+// variable that holds a copy of the slot (`for _, e := range list[:n]`,
+// `e := list[i]`) and is never assigned again.
+func (s *filterSyms) slotOfAddr(a ssa.Value, depth int) (ssa.Value, bool) {
+	if depth > 3 {
+		return nil, false
+	}
+	switch x := a.(type) {
+	case *ssa.IndexAddr:
+		if s.isListBase(x.X) {
+			return x.Index, true
+		}
+	case *ssa.Alloc:
+		var stored ssa.Value
+		n := 0
+		for _, u := range *x.Referrers() {
+			switch u := u.(type) {
+			case *ssa.Store:
+				if u.Addr == ssa.Value(x) {
+					stored = u.Val
+					n++
+				} else {
+					return nil, false
+				}
+			case *ssa.IndexAddr, *ssa.FieldAddr:
+				for _, uu := range *u.(ssa.Value).Referrers() {
+					if st, isSt := uu.(*ssa.Store); isSt && st.Addr == u.(ssa.Value) {
+						return nil, false // written component-wise: not a plain copy
+					}
+				}
+			case *ssa.UnOp, *ssa.DebugRef:
+			default:
+				return nil, false
+			}
+		}
+		if n == 1 {
+			return s.slotOfVal(stored, depth+1)
+		}
+	}
+	return nil, false
+}
+
+// slotOfVal: v is the whole value of list slot i.
+func (s *filterSyms) slotOfVal(v ssa.Value, depth int) (ssa.Value, bool) {
+	if ld, ok := v.(*ssa.UnOp); ok && ld.Op == token.MUL {
+		return s.slotOfAddr(ld.X, depth)
+	}
+	return nil, false
+}
+
+// listElem: if v is component k of list slot i (an array element or a struct
+// field, read in place or from a copy of the slot) return the path of i and k.
 func (s *filterSyms) listElem(v ssa.Value) (iPath string, k int64, ok bool) {
-	ld, isL := v.(*ssa.UnOp)
-	if !isL || ld.Op != token.MUL {
+	var slot ssa.Value
+	switch x := v.(type) {
+	case *ssa.UnOp:
+		if x.Op != token.MUL {
+			return "", 0, false
+		}
+		switch a := x.X.(type) {
+		case *ssa.IndexAddr:
+			kk, isC := sx.ConstInt(a.Index)
+			if !isC {
+				return "", 0, false
+			}
+			k = kk
+			slot, ok = s.slotOfAddr(a.X, 0)
+		case *ssa.FieldAddr:
+			k = int64(a.Field)
+			slot, ok = s.slotOfAddr(a.X, 0)
+		}
+	case *ssa.Index:
+		kk, isC := sx.ConstInt(x.Index)
+		if !isC {
+			return "", 0, false
+		}
+		k = kk
+		slot, ok = s.slotOfVal(x.X, 0)
+	case *ssa.Field:
+		k = int64(x.Field)
+		slot, ok = s.slotOfVal(x.X, 0)
+	}
+	if !ok {
 		return "", 0, false
 	}
-	inner, isI := ld.X.(*ssa.IndexAddr)
-	if !isI {
-		return "", 0, false
-	}
-	kk, isC := sx.ConstInt(inner.Index)
-	outer, isO := inner.X.(*ssa.IndexAddr)
-	if !isC || !isO {
-		return "", 0, false
-	}
-	fa, isF := outer.X.(*ssa.FieldAddr)
-	if !isF || sx.FieldOf(fa) != s.ipList {
-		return "", 0, false
-	}
-	return sx.ValPath(outer.Index), kk, true
+	return sx.ValPath(slot), k, true
 }
 
 // mapOfLen: if m is a load of f.ipMaps[j] return j.
@@ -123,7 +206,7 @@ func minusOne(v ssa.Value) (ssa.Value, bool) {
 
 func runC11(p *core.Prog, r *core.Report) {
 	r.Rule("C11-R1", "mask table: exactly 32 entries and entry i equals the /(i+1) netmask", 1)
-	r.Rule("C11-R2", "canonical-key agreement: every key stored to, compared with, deleted from or looked up in the list/maps is `addr & mask[n-1]` where the same n-1 selects the map / n is the stored prefix length; stored lengths are used as an index only behind a `> 0` test", 9)
+	r.Rule("C11-R2", "canonical-key agreement: every key stored to, compared with, deleted from or looked up in the list/maps is `addr & mask[n-1]` where the same n-1 selects the map / n is the stored prefix length; stored lengths are used as an index only behind a `> 0` test", 6)
 	r.Rule("C11-R3", "every accepted Add records the range exactly once (match-all flag, list slot + index++, or map insert) on every path returning nil, and nothing on paths returning an error; the mode switch is one-way", 4)
 	r.Rule("C11-R4", "validation before mutation: every state change in Add/Remove is reachable only after the mask-width test (bits == 32) and the address-length test succeeded; the prefix length is used as an index only after the /0 case was handled", 4)
 	r.Rule("C11-R5", "Contains normalises the address with To4() before reading its bytes and never rejects on the length of the un-normalised argument", 2)
@@ -241,7 +324,7 @@ func runC11(p *core.Prog, r *core.Report) {
 					if c, isC := sx.ConstInt(b.Y); isC && c == 0 {
 						lhs = b.X
 					}
-				case b.Op == token.NEQ:
+				case b.Op == token.NEQ, b.Op == token.EQL:
 					if c, isC := sx.ConstInt(b.Y); isC && c == 0 {
 						lhs = b.X
 					}
@@ -252,7 +335,11 @@ func runC11(p *core.Prog, r *core.Report) {
 				if ip, k, ok := syms.listElem(lhs); ok && k == 1 && ip == iPath {
 					for _, u := range *b.Referrers() {
 						if iff, ok := u.(*ssa.If); ok {
-							cut.Edges[sx.Edge{From: iff.Block(), Idx: 0}] = true
+							idx := 0
+							if b.Op == token.EQL {
+								idx = 1 // `if len == 0 { continue }`: the live slots are on the false edge
+							}
+							cut.Edges[sx.Edge{From: iff.Block(), Idx: idx}] = true
 						}
 					}
 				}
@@ -260,6 +347,7 @@ func runC11(p *core.Prog, r *core.Report) {
 			return len(cut.Edges) > 0 && sx.MustPass(fn, nil, at, cut)
 		}
 		keyOK := func(key, j ssa.Value, at ssa.Instruction) (bool, string) {
+			key = syms.pairComp(key)
 			// form 1: key = X & mask[e], e == j
 			if _, e, ok := syms.maskKey(key); ok {
 				if sx.ValPath(stripConv(e)) == sx.ValPath(stripConv(j)) {
@@ -311,24 +399,25 @@ func runC11(p *core.Prog, r *core.Report) {
 			case *ssa.Store:
 				// whole-slot store into ipList[...]
 				ia, ok := x.Addr.(*ssa.IndexAddr)
-				if !ok {
-					return
-				}
-				fa, ok := ia.X.(*ssa.FieldAddr)
-				if !ok || sx.FieldOf(fa) != syms.ipList {
-					// component store f.ipList[i][k] = v
-					if outer, ok2 := ia.X.(*ssa.IndexAddr); ok2 {
-						if fa2, ok3 := outer.X.(*ssa.FieldAddr); ok3 && sx.FieldOf(fa2) == syms.ipList {
-							n++
-							c, isC := sx.ConstInt(x.Val)
-							r.Check(isC && c == 0, "C11-R2", fmt.Sprintf("list component store #%d in %s", n, fnName(fn)), p.Pos(in.Pos()), "zeroing", "component of a list slot assigned separately: key/length pairing cannot be checked")
-						}
+				if !ok || !syms.isListBase(ia.X) {
+					// component store f.ipList[i][k] = v / f.ipList[i].field = v
+					var outerAddr ssa.Value
+					switch a := x.Addr.(type) {
+					case *ssa.IndexAddr:
+						outerAddr = a.X
+					case *ssa.FieldAddr:
+						outerAddr = a.X
+					}
+					if outer, ok2 := outerAddr.(*ssa.IndexAddr); ok2 && syms.isListBase(outer.X) {
+						n++
+						c, isC := sx.ConstInt(x.Val)
+						r.Check(isC && c == 0, "C11-R2", fmt.Sprintf("list component store #%d in %s", n, fnName(fn)), p.Pos(in.Pos()), "zeroing", "component of a list slot assigned separately: key/length pairing cannot be checked")
 					}
 					return
 				}
 				n++
 				c := fmt.Sprintf("list slot store #%d in %s", n, fnName(fn))
-				k0, k1, kind := pairOf(x.Val)
+				k0, k1, kind := syms.pairOf(x.Val)
 				switch kind {
 				case "zero":
 					r.OK("C11-R2", c, p.Pos(in.Pos()), "slot reset to the invalid pair (0,0)")
@@ -353,6 +442,27 @@ func runC11(p *core.Prog, r *core.Report) {
 				}
 			case *ssa.BinOp:
 				if x.Op != token.EQL && x.Op != token.NEQ {
+					return
+				}
+				// whole-slot comparison `list[i] == pair`: sound when the pair is canonical (key masked with the mask of its own length)
+				for _, pr := range [][2]ssa.Value{{x.X, x.Y}, {x.Y, x.X}} {
+					if _, isSlot := syms.slotOfVal(pr[0], 0); !isSlot {
+						continue
+					}
+					n++
+					c := fmt.Sprintf("slot comparison #%d in %s", n, fnName(fn))
+					k0, k1, kind := syms.pairOf(pr[1])
+					_, e, isKey := ssa.Value(nil), ssa.Value(nil), false
+					if kind == "pair" {
+						_, e, isKey = syms.maskKey(k0)
+					}
+					okPair := false
+					if isKey {
+						if nn, isM1 := minusOne(stripConv(e)); isM1 && sx.ValPath(stripConv(nn)) == sx.ValPath(stripConv(k1)) {
+							okPair = true
+						}
+					}
+					r.Check(okPair, "C11-R2", c, p.Pos(in.Pos()), "slot compared with the canonical pair (addr & mask[n-1], n)", "a list slot is compared as a whole with a value that is not (addr & mask[n-1], n)")
 					return
 				}
 				for _, pr := range [][2]ssa.Value{{x.X, x.Y}, {x.Y, x.X}} {
@@ -495,7 +605,7 @@ func runC11(p *core.Prog, r *core.Report) {
 	// mode is one-way
 	var modeVals []string
 	ctorVal := ""
-	for _, ref := range sx.FieldRefs(p.ModuleFuncs(), syms.mode) {
+	for _, ref := range sx.FieldRefs(fi.AllFuncs, syms.mode) {
 		fa, ok := ref.Instr.(*ssa.FieldAddr)
 		if !ok {
 			continue
@@ -648,11 +758,10 @@ func runC11(p *core.Prog, r *core.Report) {
 			if !ok {
 				return
 			}
-			fa, ok := ia.X.(*ssa.FieldAddr)
-			if !ok || sx.FieldOf(fa) != syms.ipList {
+			if !syms.isListBase(ia.X) {
 				return
 			}
-			if _, _, kind := pairOf(st.Val); kind != "copy" {
+			if _, _, kind := syms.pairOf(st.Val); kind != "copy" {
 				return
 			}
 			found++
@@ -718,8 +827,43 @@ func reaches(from, to *ssa.BasicBlock) bool {
 	return w(from)
 }
 
-// pairOf classifies a [2]uint32 value stored into a list slot.
-func pairOf(v ssa.Value) (k0, k1 ssa.Value, kind string) {
+// pairComp: a component read back from a local pair variable built in this function is the value stored there.
+func (s *filterSyms) pairComp(v ssa.Value) ssa.Value {
+	ld, ok := v.(*ssa.UnOp)
+	if !ok || ld.Op != token.MUL {
+		return v
+	}
+	var base ssa.Value
+	var k int64
+	switch a := ld.X.(type) {
+	case *ssa.IndexAddr:
+		kk, isC := sx.ConstInt(a.Index)
+		if !isC {
+			return v
+		}
+		base, k = a.X, kk
+	case *ssa.FieldAddr:
+		base, k = a.X, int64(a.Field)
+	default:
+		return v
+	}
+	al, ok := base.(*ssa.Alloc)
+	if !ok || k < 0 || k > 1 {
+		return v
+	}
+	// the whole-variable load that pairOf classifies
+	k0, k1, kind := s.pairOf(&ssa.UnOp{Op: token.MUL, X: al})
+	if kind != "pair" {
+		return v
+	}
+	if k == 0 {
+		return k0
+	}
+	return k1
+}
+
+// pairOf classifies a slot value (a [2]uint32 or a two-field struct) stored into a list slot or compared with one.
+func (s *filterSyms) pairOf(v ssa.Value) (k0, k1 ssa.Value, kind string) {
 	if c, ok := v.(*ssa.Const); ok && c.Value == nil {
 		return nil, nil, "zero"
 	}
@@ -727,20 +871,39 @@ func pairOf(v ssa.Value) (k0, k1 ssa.Value, kind string) {
 	if !ok || ld.Op != token.MUL {
 		return nil, nil, "?"
 	}
-	switch a := ld.X.(type) {
-	case *ssa.Alloc:
+	if _, isSlot := s.slotOfAddr(ld.X, 0); isSlot {
+		return nil, nil, "copy"
+	}
+	if a, ok := ld.X.(*ssa.Alloc); ok {
 		var e [2]ssa.Value
 		for _, u := range *a.Referrers() {
-			ia, ok := u.(*ssa.IndexAddr)
-			if !ok {
+			var k int64
+			var addr ssa.Value
+			switch ia := u.(type) {
+			case *ssa.IndexAddr:
+				kk, isC := sx.ConstInt(ia.Index)
+				if !isC {
+					return nil, nil, "?"
+				}
+				k, addr = kk, ia
+			case *ssa.FieldAddr:
+				k, addr = int64(ia.Field), ia
+			case *ssa.Store:
+				if ia.Addr == ssa.Value(a) {
+					return nil, nil, "?" // assigned as a whole from something else
+				}
+				continue
+			default:
 				continue
 			}
-			k, isC := sx.ConstInt(ia.Index)
-			if !isC || k < 0 || k > 1 {
+			if k < 0 || k > 1 {
 				return nil, nil, "?"
 			}
-			for _, uu := range *ia.Referrers() {
-				if st, ok := uu.(*ssa.Store); ok && st.Addr == ia {
+			for _, uu := range *addr.Referrers() {
+				if st, ok := uu.(*ssa.Store); ok && st.Addr == addr {
+					if e[k] != nil {
+						return nil, nil, "?"
+					}
 					e[k] = st.Val
 				}
 			}
@@ -759,10 +922,6 @@ func pairOf(v ssa.Value) (k0, k1 ssa.Value, kind string) {
 			return e[0], e[1], "?"
 		}
 		return e[0], e[1], "pair"
-	case *ssa.IndexAddr:
-		if fa, ok := a.X.(*ssa.FieldAddr); ok && sx.FieldOf(fa) != nil && strings.Contains(sx.FieldOf(fa).Type().String(), "[2]uint32") {
-			return nil, nil, "copy"
-		}
 	}
 	return nil, nil, "?"
 }
